@@ -134,8 +134,10 @@ func (g *gcGen) ln(f string, a ...interface{}) {
 
 const gcPrelude = `KEEP = {}
 local function inctx() local k = runtime.context().kill return k.cpu ~= nil or k.millis ~= nil or k.memory ~= nil end
-local function mk(id, res)
-  local o = setmetatable({id = id}, {__gc = function(o) emit("gc", o.id, inctx()) if res then KEEP[#KEEP + 1] = o end end})
+local function mk(id, res, spin)
+  -- spin: inside a limited context the finaliser never returns, so the limit is reached (and the
+  -- context killed) while a finaliser is running
+  local o = setmetatable({id = id}, {__gc = function(o) emit("gc", o.id, inctx()) if res then KEEP[#KEEP + 1] = o end if spin and inctx() then while true do end end end})
   emit("mark", id)
   return o
 end
@@ -185,9 +187,12 @@ func (g *gcGen) stmts(n int) {
 		switch g.t.Weighted(w...) {
 		case 0: // dropped table with finalizer
 			g.nid++
-			if g.t.Chance(1, 5) {
+			switch {
+			case g.t.Chance(1, 5):
 				g.ln(`do local o = mklate(%d) end  -- dropped`, g.nid)
-			} else {
+			case g.depth >= 1 && g.t.Chance(1, 5):
+				g.ln(`do local o = mk(%d, false, true) end  -- dropped, its finaliser spins`, g.nid)
+			default:
 				g.ln(`do local o = mk(%d) end  -- dropped`, g.nid)
 			}
 		case 1: // kept table
@@ -476,7 +481,7 @@ func runGC(ctx *core.RunCtx) {
 			objs[id] = &info{hasGC: true, kept: strings.Contains(l, "-- kept")}
 		case strings.Contains(l, "= mk(") || strings.HasPrefix(l, "do local o = mk("):
 			fmt.Sscanf(l[strings.Index(l, "mk(")+3:], "%d", &id)
-			objs[id] = &info{hasGC: true, kept: strings.Contains(l, "-- kept"), res: strings.Contains(l, "true)"), remark: strings.Contains(l, "-- remarked")}
+			objs[id] = &info{hasGC: true, kept: strings.Contains(l, "-- kept"), res: strings.Contains(l, "true)") && !strings.Contains(l, "spins"), remark: strings.Contains(l, "-- remarked")}
 		case strings.Contains(l, "ud("):
 			rest := l[strings.Index(l, "ud(")+3:]
 			fmt.Sscanf(rest, "%d, %t", &id, &b)
